@@ -19,10 +19,12 @@ import (
 	"log/slog"
 	"net/http"
 	"os"
+	"os/signal"
 	"path/filepath"
 	"runtime"
 	"strconv"
 	"strings"
+	"syscall"
 
 	"github.com/AdguardTeam/AdGuardHome/internal/configmigrate"
 	"github.com/AdguardTeam/AdGuardHome/internal/dhcpd"
@@ -57,6 +59,7 @@ func childMain(args []string) int {
 	old := fs.Int("old", 1, "1: establish generation 0 before the first marker")
 	calib := fs.String("calib", "", "calibration string (from -calibrate)")
 	doCalib := fs.Bool("calibrate", false, "print the calibration for -size and exit")
+	fault := fs.String("fault", "", "fsize-half|fsize-last: file-size limit during save 1")
 	if err := fs.Parse(args); err != nil {
 		return 3
 	}
@@ -77,6 +80,10 @@ func childMain(args []string) int {
 		s = &filterSaver{}
 	case "filterfail":
 		s = &filterFailSaver{}
+	case "seturl":
+		s = &setURLSaver{}
+	case "seturlfail":
+		s = &setURLSaver{failFirst: true}
 	default:
 		fmt.Fprintln(os.Stderr, "child: bad -kind")
 		return 3
@@ -114,6 +121,39 @@ func childMain(args []string) int {
 
 	for gen := 1; gen <= 2; gen++ {
 		marker(*dir, gen)
+		if ls, ok := s.(*leaseSaver); ok {
+			ls.direct = gen == 1 && *fault != ""
+		}
+		if gen == 1 && *fault != "" {
+			// The "disk" fills up: no file may grow beyond the limit.  SIGXFSZ
+			// is ignored so that write(2) reports EFBIG like it reports ENOSPC.
+			limit := uint64(*size / 2)
+			if *fault == "fsize-last" {
+				limit = uint64(*size - 1)
+			}
+			signal.Ignore(syscall.SIGXFSZ)
+			var lim, prev syscall.Rlimit
+			if err := syscall.Getrlimit(syscall.RLIMIT_FSIZE, &prev); err != nil {
+				return fail("getrlimit", err)
+			}
+			lim = prev
+			lim.Cur = limit
+			if err := syscall.Setrlimit(syscall.RLIMIT_FSIZE, &lim); err != nil {
+				return fail("setrlimit", err)
+			}
+			err := s.save(gen, *size, *calib)
+			if rerr := syscall.Setrlimit(syscall.RLIMIT_FSIZE, &prev); rerr != nil {
+				return fail("setrlimit back", rerr)
+			}
+			if ls, ok := s.(*leaseSaver); ok && err == nil {
+				// onNotify only logs the error; ask the writer it calls.
+				err = ls.lastErr
+			}
+			if err == nil {
+				return fail("save 1", fmt.Errorf("the save succeeded although no file could reach its size: the fault did not take effect"))
+			}
+			continue
+		}
 		if err := s.save(gen, *size, *calib); err != nil {
 			return fail("save "+strconv.Itoa(gen), err)
 		}
@@ -242,7 +282,12 @@ func (s *upgradeSaver) save(gen, size int, calib string) error {
 
 // ---- lease database --------------------------------------------------------
 
-type leaseSaver struct{ vs *dhcpd.VerifC14Server }
+type leaseSaver struct {
+	vs *dhcpd.VerifC14Server
+	// direct: call dbStore itself (to learn its error) instead of onNotify.
+	direct  bool
+	lastErr error
+}
 
 func (s *leaseSaver) prepare(dir string) (err error) {
 	data := filepath.Join(dir, "data")
@@ -283,6 +328,10 @@ func (s *leaseSaver) save(gen, _ int, calib string) error {
 		return fmt.Errorf("bad calib %q", calib)
 	}
 	s.vs.SetLeases("g"+strconv.Itoa(gen), n, pad)
+	if s.direct {
+		s.lastErr = s.vs.StoreErr()
+		return nil
+	}
 	s.vs.Store()
 	return nil
 }
@@ -319,7 +368,7 @@ func (r *cutReader) Read(p []byte) (n int, err error) {
 }
 
 func (t *fakeTransport) RoundTrip(req *http.Request) (*http.Response, error) {
-	if req.URL.String() != filterURL {
+	if !strings.HasPrefix(req.URL.String(), filterURL) {
 		return nil, fmt.Errorf("verif: unexpected request to %s", req.URL)
 	}
 	return &http.Response{
@@ -443,5 +492,40 @@ func (s *filterSaver) save(gen, size int, _ string) error {
 	if !ok || netErr || updated != 1 {
 		return fmt.Errorf("refresh: updated=%d netErr=%v ok=%v", updated, netErr, ok)
 	}
+	return nil
+}
+
+// ---- filter list whose address is changed ------------------------------------
+
+// setURLSaver: every save changes the address of the list through
+// filterSetProperties (what POST /control/filtering/set_url runs), which
+// downloads the list from the new address into the same file.  With failFirst
+// the download of save 1 breaks half-way: the change is refused and the stored
+// list must stay the previous version.
+type setURLSaver struct {
+	filterSaver
+	failFirst bool
+	cur       string
+}
+
+func (s *setURLSaver) save(gen, size int, calib string) error {
+	if gen == 0 {
+		s.cur = filterURL
+		return s.filterSaver.save(gen, size, calib)
+	}
+	next := filterURL + "?generation=" + strconv.Itoa(gen)
+	s.tr.body = filterBody(gen, size)
+	if s.failFirst && gen == 1 {
+		s.tr.cut = len(s.tr.body) / 2
+		defer func() { s.tr.cut = 0 }()
+		if _, err := s.d.VerifC14SetURL(s.cur, next); err == nil {
+			return fmt.Errorf("set_url succeeded although the download broke")
+		}
+		return nil
+	}
+	if _, err := s.d.VerifC14SetURL(s.cur, next); err != nil {
+		return fmt.Errorf("set_url: %w", err)
+	}
+	s.cur = next
 	return nil
 }
